@@ -24,6 +24,7 @@ type GenCfg struct {
 	RootNode      bool // queries may select the Relay entry point node(id:) at the root
 	Skeleton      bool // more selections that hold nothing but object-valued fields at the inner levels
 	NestedLists   bool // some list-typed fields are lists of lists
+	Chain         bool // worlds of the shape  Query.as:[A] (service 0)  A.bs:[B] (service 1)  B.leaf (service 2), operations through the whole chain
 	BigLists      bool
 	RichArgs      bool            // enum, list and input-object arguments
 	FragBase      int             // first number of generated fragment names (several operations in one document)
@@ -123,7 +124,81 @@ func (g *gen) genArgs() []ArgDecl {
 }
 
 // Gen generates a world whose service schemas merge successfully.
+// genChain builds a world whose stitched lists are nested two deep, every level owned by another service:
+// with services that do not know every entity (node: null) objects are left with nothing but their helper
+// fields at both levels at once.
+func genChain(r *rand.Rand, id int) *World {
+	nn := func(n string) TypeRef { return TypeRef{Name: n, NN: true} }
+	w := &World{ID: id, Types: map[string]*TypeDecl{}, Ents: map[string]*Entity{}, Roots: map[string]map[string]Val{}, Tags: []string{"chain"}}
+	w.Types["A"] = &TypeDecl{Kind: "OBJECT", Node: true, Order: []string{"id", "aname", "bs", "b1"}, Fields: map[string]*FieldDecl{
+		"id": {Type: nn("ID")}, "aname": {Type: TypeRef{Name: "String"}}, "bs": {Type: TypeRef{Name: "B", List: true, ElemNN: true}}, "b1": {Type: TypeRef{Name: "B"}}}}
+	w.Types["B"] = &TypeDecl{Kind: "OBJECT", Node: true, Order: []string{"id", "bname", "leaf", "as"}, Fields: map[string]*FieldDecl{
+		"id": {Type: nn("ID")}, "bname": {Type: TypeRef{Name: "String"}}, "leaf": {Type: TypeRef{Name: "Int"}}, "as": {Type: TypeRef{Name: "A", List: true}}}}
+	w.Types["Query"] = &TypeDecl{Kind: "OBJECT", Order: []string{"as", "a", "n", "m"}, Fields: map[string]*FieldDecl{
+		"as": {Type: TypeRef{Name: "A", List: true, ElemNN: true}}, "a": {Type: TypeRef{Name: "A"}}, "n": {Type: TypeRef{Name: "Int"}}, "m": {Type: TypeRef{Name: "Int"}}}}
+	w.Services = []*Service{
+		{URL: "http://s0.test", Decl: map[string][]string{"Query": {"as", "a"}, "A": {"aname"}, "B": {}}},
+		{URL: "http://s1.test", Decl: map[string][]string{"Query": {"n"}, "A": {"bs", "b1"}, "B": {"bname"}}},
+		{URL: "http://s2.test", Decl: map[string][]string{"Query": {"m"}, "B": {"leaf", "as"}, "A": {}}},
+	}
+	na, nb := 2+r.Intn(3), 2+r.Intn(3)
+	var as, bs []Val
+	for i := 1; i <= nb; i++ {
+		bs = append(bs, R(fmt.Sprintf("B_%d", i)))
+	}
+	for i := 1; i <= na; i++ {
+		as = append(as, R(fmt.Sprintf("A_%d", i)))
+	}
+	pickB := func() Val {
+		var out []Val
+		for _, b := range bs {
+			if r.Intn(2) == 0 {
+				out = append(out, b)
+			}
+		}
+		return L(out...)
+	}
+	for i := 1; i <= na; i++ {
+		idv := fmt.Sprintf("A_%d", i)
+		w.Ents[idv] = &Entity{Type: "A", F: map[string]Val{"id": S(idv), "aname": S(fmt.Sprintf("a%d", i)), "bs": pickB(), "b1": bs[r.Intn(nb)]}}
+	}
+	for i := 1; i <= nb; i++ {
+		idv := fmt.Sprintf("B_%d", i)
+		w.Ents[idv] = &Entity{Type: "B", F: map[string]Val{"id": S(idv), "bname": S(fmt.Sprintf("b%d", i)), "leaf": S(i), "as": L(as[:1+r.Intn(na)]...)}}
+	}
+	w.Roots["Query"] = map[string]Val{"as": L(as...), "a": as[0], "n": S(1), "m": S(2)}
+	return w
+}
+
+// genChainOp: an operation through the chain; which levels select something of their own varies
+func genChainOp(r *rand.Rand) *Op {
+	f := func(name string, sub ...*Sel) *Sel {
+		return &Sel{K: "F", Key: name, Name: name, Dirs: []Dir{}, Sub: sub, Args: map[string]ArgExpr{}}
+	}
+	leafLevel := []*Sel{f("leaf")}
+	if r.Intn(3) == 0 {
+		leafLevel = append(leafLevel, f("bname"))
+	}
+	if r.Intn(4) == 0 {
+		leafLevel = []*Sel{f("as", f("aname"))}
+	}
+	bsel := f([]string{"bs", "bs", "b1"}[r.Intn(3)], leafLevel...)
+	alevel := []*Sel{bsel}
+	if r.Intn(3) == 0 {
+		alevel = append(alevel, f("aname"))
+	}
+	root := []*Sel{f([]string{"as", "as", "a"}[r.Intn(3)], alevel...)}
+	if r.Intn(3) == 0 {
+		root = append(root, f("n"))
+	}
+	op := &Op{Kind: "query", VarDefs: map[string]*VarDef{}, Vars: map[string]ArgVal{}, Sel: root, Tags: []string{"chain"}}
+	return op
+}
+
 func Gen(r *rand.Rand, cfg GenCfg, id int) *World {
+	if cfg.Chain {
+		return genChain(r, id)
+	}
 	g := &gen{r: r, cfg: cfg, own: map[string]map[string]int{}, ids: map[string][]string{}, tag: map[string]bool{}}
 	w := &World{ID: id, Types: map[string]*TypeDecl{}, Ents: map[string]*Entity{}, Roots: map[string]map[string]Val{}}
 	g.w = w
@@ -584,6 +659,7 @@ func renderArgValKey(v ArgVal) string {
 // ---------------------------------------------------------------------------- operations
 
 type opgen struct {
+	via     string // url of the service that owns the field through which the current selection set was reached
 	g       *gen
 	op      *Op
 	alias   int
@@ -594,6 +670,9 @@ type opgen struct {
 
 // GenOp generates an operation that is valid against the merged schema of w.
 func GenOp(r *rand.Rand, w *World, cfg GenCfg, kind string) *Op {
+	if cfg.Chain {
+		return genChainOp(r)
+	}
 	g := &gen{r: r, cfg: cfg, w: w}
 	og := &opgen{g: g, op: &Op{Kind: kind, VarDefs: map[string]*VarDef{}, Vars: map[string]ArgVal{}}, tag: map[string]bool{}, frag: cfg.FragBase}
 	if g.chance(0.5) {
@@ -846,12 +925,31 @@ func (og *opgen) field(parent, name string, depth int) *Sel {
 		}
 	}
 	if !IsScalar(fd.Type.Name) {
+		saved := og.via
+		og.via = og.ownerOf(parent, name)
 		s.Sub = og.selset(fd.Type.Name, depth)
+		og.via = saved
 		if fd.Type.List2 {
 			og.tag["nested-list"] = true
 		}
 	}
 	return s
+}
+
+// ownerOf tells which service declares field f of type tn ("" if several or none do)
+func (og *opgen) ownerOf(tn, f string) string {
+	owner := ""
+	for _, s := range og.g.w.Services {
+		for _, x := range s.Decl[tn] {
+			if x == f {
+				if owner != "" {
+					return ""
+				}
+				owner = s.URL
+			}
+		}
+	}
+	return owner
 }
 
 func (og *opgen) selset(tn string, depth int) []*Sel {
@@ -904,6 +1002,19 @@ func (og *opgen) selset(tn string, depth int) []*Sel {
 			cands = append([]string{}, objs...)
 		}
 	}
+	if g.cfg.Skeleton && td.Node && og.via != "" && g.chance(0.7) {
+		// only what OTHER services own: everything selected here arrives through follow-up steps (which a service that
+		// does not know the entity answers with node: null)
+		var elsewhere []string
+		for _, f := range cands {
+			if o := og.ownerOf(tn, f); o != "" && o != og.via {
+				elsewhere = append(elsewhere, f)
+			}
+		}
+		if len(elsewhere) > 0 {
+			cands = elsewhere
+		}
+	}
 	if g.chance(0.15) {
 		cands = append(cands, "__typename")
 	}
@@ -918,6 +1029,19 @@ func (og *opgen) selset(tn string, depth int) []*Sel {
 	}
 	if len(out) == 0 {
 		out = append(out, &Sel{K: "F", Key: "__typename", Name: "__typename", Dirs: []Dir{}, Sub: []*Sel{}})
+	}
+	if g.cfg.Skeleton && !g.cfg.Off["dirs"] && g.chance(0.35) {
+		// every leaf selected here is switched off: once the helper fields are removed the object is empty
+		for _, x := range out {
+			if x.K == "F" && len(x.Sub) == 0 && len(x.Dirs) == 0 && x.Name != "id" && x.Name != "__typename" {
+				if g.chance(0.5) {
+					x.Dirs = []Dir{{N: "skip", If: ArgExpr{"t": "lit", "v": ArgVal{"t": "b", "v": true}}}}
+				} else {
+					x.Dirs = []Dir{{N: "include", If: ArgExpr{"t": "lit", "v": ArgVal{"t": "b", "v": false}}}}
+				}
+				og.tag["dirs"] = true
+			}
+		}
 	}
 	// wrap some of the selections into a fragment
 	if !g.cfg.Off["frag"] && g.chance(0.2) && len(out) > 0 {
